@@ -107,6 +107,11 @@ def run(ctx):
             # instant the connector finishes, before and after the waiting caller wakes
             (dict(hosts=["10.0.0.1"], rounds=3, triggers=["accept+close", "ensure"], behaviours=["ok"], preemptive_triggers=False), 2),
             (dict(hosts=["10.0.0.1"], rounds=3, triggers=["accept+close"], behaviours=["ok"], subscriptions=True, prelude=["refuse", "timer"], preemptive_triggers=False), 1),
+            # two callers waiting for the connection while the connector is busy, then close / shutdown
+            (dict(hosts=["10.0.0.1"], rounds=4, triggers=["ensure", "close", "shutdown", "zc-same"], behaviours=["ok"], prelude=["ensure"], preemptive_triggers=False), 2),
+            (dict(hosts=["10.0.0.1"], rounds=4, triggers=["ensure", "close", "shutdown"], behaviours=["ok"], prelude=["hang", "ensure"], preemptive_triggers=False), 2),
+            # the accessory database is being listed (slow answer) when the pairing is closed / shut down
+            (dict(hosts=["10.0.0.1"], rounds=4, triggers=["list-req", "close", "shutdown", "drop", "ensure"], behaviours=["ok"], prelude=["ok|10.0.0.1|ok", "list-req"], preemptive_triggers=False), 2),
             # a damaged pairing record: the secure session cannot be set up on the controller's side, attempt after attempt
             (dict(hosts=["10.0.0.1"], rounds=4, triggers=["zc-same", "ensure", "close", "drop"], behaviours=["ok", "mute"], damage=("AccessoryLTPK", "odd"), preemptive_triggers=False), 2),
             (dict(hosts=["10.0.0.1"], rounds=4, triggers=["zc-same", "close"], behaviours=["ok"], damage=("iOSDeviceLTSK", "nonhex"), preemptive_triggers=False), 1),
